@@ -761,7 +761,7 @@ static struct { JanetTupleHead head; Janet data[3]; } sp_qtop, sp_qel[3], sp_qin
 static JanetArray sp_qarr;
 static Janet sp_symv(const uint8_t *s) { Janet x; x.type = JANET_SYMBOL; x.as.u64 = 0; x.as.pointer = (void *) s; return x; }
 static Janet sp_tupv(void *data) { Janet x; x.type = JANET_TUPLE; x.as.u64 = 0; x.as.pointer = data; return x; }
-static int sp_same(Janet a, Janet b) { return a.type == b.type && a.as.u64 == b.as.u64; }
+static int sp_same(Janet a, Janet b) { return a.type == b.type && ((a.type == JANET_SYMBOL || a.type == JANET_TUPLE) ? a.as.pointer == b.as.pointer : a.as.u64 == b.as.u64); }
 static int sp_is_const(JanetSlot s, Janet x) { return (s.flags & JANET_SLOT_CONSTANT) && sp_same(s.constant, x); }
 /* the event that produced the (non-constant) slot s */
 static int sp_event_of(JanetSlot s) { int r = -1; for (int e = 0; e < SP_QE; e++) if (e < sp_nev && !(s.flags & JANET_SLOT_CONSTANT) && sp_ev_target[e].index == s.index) r = e; return r; }
@@ -801,6 +801,9 @@ static const int sp_qq_template[3] = { QK_UNQ, QK_UNQ, QK_ATOM };          /* ~(
 #else
 #define QR02(m) ((void)0)
 #endif
+/* concrete indexing (a symbolic index into the array of tuple structs is mis-resolved by CBMC 6.11) */
+static Janet sp_qel_head(int i) { return i == 0 ? sp_qel[0].data[0] : i == 1 ? sp_qel[1].data[0] : sp_qel[2].data[0]; }
+static int32_t sp_qel_len(int i) { return i == 0 ? sp_qel[0].head.length : i == 1 ? sp_qel[1].head.length : sp_qel[2].head.length; }
 void h_quasiquote(void) {
     sp_setup(JANET_SCOPE_FUNCTION);
     int L = nd_int();
@@ -846,7 +849,7 @@ void h_quasiquote(void) {
     sp_common_post("quasiquote");
     /* nesting depth of x */
     int need = 1;
-    if (shape == 0) { need = 2; for (int i = 0; i < 3; i++) if (i < L) { int d = kind[i] == QK_ATOM || kind[i] == QK_UNQ ? 2 : kind[i] == QK_QQ ? 4 : 3; if (d > need) need = d; } }
+    if (shape == 0 && L > 0) { need = 2; for (int i = 0; i < 3; i++) if (i < L) { int d = kind[i] == QK_ATOM || kind[i] == QK_UNQ ? 2 : kind[i] == QK_QQ ? 4 : 3; if (d > need) need = d; } }
     if (depth < need) {
         __CPROVER_assert(sp_errors >= 1, "comp.quasiquote: nesting deeper than the guard allows is a compile error (no unbounded recursion)");
         REACH("quasiquote: too deeply nested");
@@ -890,8 +893,10 @@ void h_quasiquote(void) {
     } else {
         int ev = sp_event_of(e);
         __CPROVER_assert(sp_calls[f] == 0, "comp.quasiquote: nothing inside nested data, an argument-less unquote or a deeper quasiquote level is evaluated");
-        __CPROVER_assert(ev >= 0 && ev < top_e && sp_ev_op[ev] == JOP_MAKE_TUPLE && sp_ev_n[ev] == sp_qel[i].head.length && sp_is_const(sp_ev_elem[ev][0], ((Janet *) sp_qel[i].data)[0]) && !(e.flags & JANET_SLOT_SPLICED),
-                         "comp.quasiquote: a nested tuple is rebuilt as a tuple with the same head symbol");
+        __CPROVER_assert(ev >= 0 && ev < top_e && sp_ev_op[ev] == JOP_MAKE_TUPLE && !(e.flags & JANET_SLOT_SPLICED), "comp.quasiquote: a nested tuple is rebuilt as a tuple");
+        __CPROVER_assume(ev >= 0 && ev < top_e);
+        __CPROVER_assert(sp_ev_n[ev] == sp_qel_len(i), "comp.quasiquote: a nested tuple is rebuilt with the same number of elements");
+        __CPROVER_assert(sp_is_const(sp_ev_elem[ev][0], sp_qel_head(i)), "comp.quasiquote: a nested tuple is rebuilt with the same head symbol");
         if (kind[i] == QK_TUP) { __CPROVER_assert(sp_is_const(sp_ev_elem[ev][1], sp_form(f)), "comp.quasiquote: nested data is kept"); QR1("quasiquote: nested tuple"); }
         else if (kind[i] == QK_UNQ1) QR1("quasiquote: unquote without argument is data");
         else {
